@@ -44,6 +44,12 @@ def gen(seed, idx, tier):
     feats.update({"act_delay": True, "act": True})
   sleep = bool(r.random() < 0.2)
   spec, rejected = scen.pick_model(seed, idx, features=feats, curated_p=0.0, accept=_accept)
+  # The reference of this check is the same world inside a batch whose other worlds differ. Under the sweep-and-prune broadphase the
+  # position of one world's candidate pairs in the strided work list - and with it the listing order of its contacts and the round-off of
+  # everything summed over them - depends on how many candidates the other worlds have (DESIGN 7, C09a): a bit-exact twin comparison is
+  # only sound under the N x N broadphase, so that is what this check uses (SAP is exercised by C09, C11, C12, C16, C17).
+  if spec.get("mopt"):
+    spec["mopt"].pop("broadphase", None)
   if sleep:
     spec["opt"]["sleep"] = True
     spec["opt"]["sleep_tolerance"] = 0.05
